@@ -21,6 +21,16 @@ void __asan_unpoison_memory_region(void const volatile* addr, size_t size);
 #define POISON(p, n) ((void)0)
 #define UNPOISON(p, n) ((void)0)
 #endif
+#ifdef SK_MSAN
+/* MemorySanitizer: a fresh block is garbage AND undefined; calloc'ed memory is defined */
+void __msan_poison(const volatile void* a, size_t size);
+void __msan_unpoison(const volatile void* a, size_t size);
+#define UNDEF(p, n) __msan_poison((p), (n))
+#define DEF(p, n) __msan_unpoison((p), (n))
+#else
+#define UNDEF(p, n) ((void)0)
+#define DEF(p, n) ((void)0)
+#endif
 
 #define ARENA_SIZE ((size_t)512 << 20)
 #define REDZONE 32
@@ -33,7 +43,7 @@ static size_t top, high;
 static blk_t* blks;
 static long nblks, capblks, nlive;
 static size_t live_bytes;
-static int armed, use_arena = 1, exhausted, overrun;
+static int armed, use_arena = 1, exhausted, overrun, stale;
 static long alloc_calls, fail_k, nfailed;
 static int fail_persistent;
 static sk_rng fill_rng;
@@ -80,6 +90,7 @@ void sk_heap_reset(uint64_t fill_seed)
 	alloc_calls = 0, fail_k = 0, fail_persistent = 0, nfailed = 0;
 	exhausted = 0, overrun = 0, armed = 0;
 	trace = SK_DG_INIT;
+	stale = 0;
 	sk_rng_seed(&fill_rng, fill_seed);
 	if (!use_arena)
 	{
@@ -90,6 +101,17 @@ void sk_heap_reset(uint64_t fill_seed)
 		xt_live = 0;
 	}
 }
+
+/* new run in which fresh blocks keep whatever the previous run left at the same
+   place (adversarial "garbage": the stale image of an earlier computation) */
+void sk_heap_reset_stale(void)
+{
+	sk_heap_reset(0);
+	stale = 1;
+}
+
+/* mark memory as defined for MemorySanitizer (no-op elsewhere) */
+void sk_mark_defined(void* p, size_t n) { DEF(p, n); (void)p; (void)n; }
 
 void sk_heap_arm(void) { armed = 1; }
 void sk_heap_disarm(void) { armed = 0; }
@@ -125,7 +147,9 @@ static void* arena_alloc(size_t n)
 	UNPOISON(arena + top, end + REDZONE - top);
 	memset(arena + top, CANARY, REDZONE);
 	memset(p + n, CANARY, end - off - n + REDZONE);
-	sk_bytes(&fill_rng, p, n);
+	if (!stale)
+		sk_bytes(&fill_rng, p, n);
+	UNDEF(arena + top, end + REDZONE - top);
 	POISON(arena + top, REDZONE);
 	POISON(arena + end, REDZONE);
 	/* tail between n and the 16-octet boundary: ASan handles a partial last
@@ -195,6 +219,7 @@ static void arena_release(void* p, int kind)
 	b->live = 0;
 	--nlive, live_bytes -= b->size;
 	POISON(p, b->size);
+	UNDEF(p, b->size);
 }
 
 static void xt_add(void* p, size_t n)
@@ -277,7 +302,10 @@ void* __wrap_calloc(size_t a, size_t b)
 		return __real_calloc(a, b);
 	p = armed_alloc(a * b, 2);
 	if (p)
+	{
 		memset(p, 0, a * b);
+		DEF(p, a * b);
+	}
 	return p;
 }
 
